@@ -4,13 +4,41 @@ from .p_common import TB, PROFILES
 from . import gridgen
 
 
+def tiny_max_step_builder(seed, n, defaults, tag):
+    """automatic first step under a max_step far below the heuristic's fallback guess (1e-6): a start at rest or from a
+    zero state takes that fallback (seeded change C11-e no longer limited it by max_step); sub-microsecond time scales"""
+    import random
+    from . import gen, sweep
+    from .gen import C, Y, T, add, mul, neg
+    rng = random.Random(seed)
+    cases, metas = [], {}
+    k = 0
+    probs = [{"name": "from_zero", "f": [add(C(1.0), mul(C(0.5), Y(0)))], "y0": [0.0]},
+             {"name": "from_rest", "f": [Y(1), neg(Y(0))], "y0": [0.0, 0.0]},
+             {"name": "at_rest_forced", "f": [mul(C(3.0), T)], "y0": [1.0]},
+             {"name": "moving", "f": [neg(Y(0))], "y0": [1.0]}]
+    for method in sweep.available_methods():
+        for prob in probs:
+            for ms in (1e-7, 2e-7, 3e-9):
+                d = -1.0 if rng.random() < 0.3 else 1.0
+                kw = dict(method=method, prob=dict(prob, span=25 * ms), x0=0.0, xend=d * 25 * ms, rtol=1e-6, atol=1e-9,
+                          defaults=defaults, max_step=ms)
+                cid = "%s%d" % (tag, k)
+                k += 1
+                cases.append(gen.solve_case(cid, **kw))
+                metas[cid] = ({"family": prob["name"], "n": len(prob["y0"]), "backward": d < 0, "tolmode": "mixed",
+                               "method": method}, kw)
+    return cases, metas
+
+
 def check():
     return solvercheck.run(
         "C11", "C11.v",
         [dict(profile=PROFILES["steps"], n_quick=300, n_thorough=5000),
          dict(profile=PROFILES["plain"], n_quick=60, n_thorough=1000),
-         dict(builder=gridgen.budget_builder, n_quick=400, n_thorough=4000)],
+         dict(builder=gridgen.budget_builder, n_quick=400, n_thorough=4000),
+         dict(builder=tiny_max_step_builder, n_quick=1, n_thorough=1)],
         [oracles.oracle_C11, oracles.oracle_shapes], TB,
-        "profile 'steps' + budget sweeps (every max_steps = 1..nstep on runs with rejected attempts) + plain runs over the 4 explicit methods, both directions; each case replayed bit-for-bit on the "
+        "profile 'steps' + budget sweeps (every max_steps = 1..nstep on runs with rejected attempts) + plain runs over the 4 explicit methods, both directions + automatic first steps under a max_step below 1e-6 (starts at rest / from zero); each case replayed bit-for-bit on the "
         "extracted model; the property's clauses checked on the implementation's results; non-trivial = at least 2 accepted "
         "steps; distinct = distinct case lines")
